@@ -624,6 +624,10 @@ pub fn gen_config(rng: &mut Rng, sc: &mut Scenario, force_async: Option<bool>) {
     };
     sc.batch_p = *rng.pick(&[0, 0, 2, 3, 8]);
     sc.spurious_p = *rng.pick(&[0, 0, 8, 16]);
+    // a provider that has part of its metadata at hand answers those requests at once and suspends only for the rest
+    // (drawn from a stream of its own, so that the other choices of this configuration stay what they were)
+    let mut ir = Rng::stream(sc.sched_seed, "immediate");
+    sc.immediate_p = *ir.pick(&[0, 0, 0, 2, 4, 6]);
 }
 
 pub fn gen_activity(rng: &mut Rng) -> Option<(f32, f32)> {
